@@ -103,3 +103,13 @@ META["C11"] = _m("proof", "DESIGN.md section 6, C11",
     "Coq theorems (unbounded, loop invariants) that the change list, the key changes and the rich-text delta computed by a line-by-line Gallina transcription of event_change_set / event_keys / TextEvent::get_delta are exact edit scripts for every item list; tied to the code by evaluating the extracted transcription on the item lists of real transactions inside the observer callback (same event, invariants hold, same before/after content) and by shadow copies of every reachable type maintained only from events",
     "Exactness of an edit script is a statement over all interleavings of added, deleted, pre-existing and tombstoned items - a space indexed by histories. The theorems settle it for the transcription for every item list; the correspondence makes the transcription print the implementation's own event on more than a hundred thousand real transactions per quick run and checks the theorems' hypotheses on each; the shadow-copy oracle additionally covers dispatch (which types fire, once, with which path), which is not modelled.",
     "Partial: observer dispatch (which types fire, at most once, deep bubbling) is decided on the implementation only. Known finding: an event (with a no-op edit script) fires for a type the transaction touched without changing its content. Two defects of the pinned tree (out-of-order integrated items invisible to event_keys / add_changed_type) repaired by fix commits 1419c27, 83fda94.")
+
+META["C19"] = _m("proof", "DESIGN.md section 6, C19",
+    "Coq theorems for the value cells (what is written through an input cell is what is stored, what is read back from an output cell is what is stored, tags distinct; model transcribed from yffi with tags regenerated from the source) + differential execution of generated C API programs against a natively driven twin: byte-equal encoded state after every transaction, every getter and output cell compared, exchange / snapshots / sticky indexes / undo manager / observers compared call by call",
+    "Conformance of ~200 marshalling wrappers for all call sequences is a differential statement: nothing in the pinned suite executes yffi at all. The only part with mathematical content - the tagged value cells - is modelled and proved; everything else is decided by running the same program through both APIs and comparing the encoded state byte for byte and every value read back.",
+    "Thin proof by nature: the wrappers are delegation and are decided differentially only (said in DESIGN.md). Cases run in child processes because a panic inside extern \"C\" aborts the process.")
+
+META["C12"] = _m("proof", "DESIGN.md section 6, C12",
+    "Coq model of the undo manager for a flat scope (capture steps, both stacks, try_process, re-creation through redone pointers) with the stack-mirror oracle as an executable definition; theorems: the inverse law on a kernel-enumerated universe of programs, and unbounded invariants (other origins' insertions stay visible, values and deletion flags never altered); tied to the code by comparing content / stack depths / return values with the implementation after every action of random flat programs, and by applying the same oracle to the implementation on all types incl. nesting, plus interference checks and convergence",
+    "The inverse law quantifies over all histories, groupings and interleavings of undo / redo. The model makes the re-creation mechanics (copies placed next to the tombstone they re-create, map-entry conflict walk, resolution of captured insertions through chains of copies) explicit and decides the law on a complete finite universe inside the kernel; the correspondence (about a million actions per thorough run) shows the implementation follows the model step for step on a flat scope, and the oracle itself is run on the implementation for everything the model does not cover.",
+    "Partial: the unbounded proof of the inverse law is not closed (finite universe + unbounded interference invariants); nested types are decided on the implementation only. Six defects of the pinned tree repaired (two use-after-free, a panic, three wrong results); recorded finding: failures after a nested type was re-created by undo / redo.")
